@@ -24,6 +24,7 @@ import (
 type c35Entry struct {
 	pos  uint64
 	hash crypto.Hash
+	txs  []crypto.Hash
 }
 
 func c35Gen(rng *core.Rng, tier string) *harness.Plan {
@@ -35,8 +36,11 @@ func c35Gen(rng *core.Rng, tier string) *harness.Plan {
 	if tier == "thorough" {
 		n = 100 + rng.IntN(700)
 	}
-	w := []int{3 + rng.IntN(6), 2 + rng.IntN(6), 1 + rng.IntN(4), 1, rng.IntN(2)}
-	kinds := []string{"write", "list", "lookup", "last", "restart"}
+	if rng.Chance(0.3) {
+		p.Params["bulk"] = int64(90 + rng.IntN(230)) // a long index: listings spanning hundreds of positions
+	}
+	w := []int{3 + rng.IntN(6), 2 + rng.IntN(6), 1 + rng.IntN(4), 1, rng.IntN(2), 1 + rng.IntN(4)}
+	kinds := []string{"write", "list", "lookup", "last", "restart", "listtx"}
 	for i := 0; i < n; i++ {
 		k := kinds[weighted(rng, w)]
 		op := harness.Op{Kind: k}
@@ -48,7 +52,10 @@ func c35Gen(rng *core.Rng, tier string) *harness.Plan {
 				op.A = int64(2 + rng.IntN(5)) // gap
 			}
 			op.B = int64(1 + rng.IntN(3)) // transactions in the snapshot
-		case "list":
+			if rng.Chance(0.3) {
+				op.C = 1 // looked up by hash right before it is stored (must be absent), and again later
+			}
+		case "list", "listtx":
 			op.A = int64(rng.IntN(40)) // offset selector
 			op.B = int64(rng.IntN(12))
 			if rng.Chance(0.1) {
@@ -82,12 +89,20 @@ func c35Exec(p *harness.Plan) *harness.Outcome {
 		return c.tool(err)
 	}
 	for _, s := range snaps {
-		model = append(model, c35Entry{s.TopologicalOrder, s.PayloadHash()})
+		model = append(model, c35Entry{s.TopologicalOrder, s.PayloadHash(), s.Transactions})
 	}
 	ts := f.BaseTime()
 	depN := 0
 	writes, lists := 0, 0
-	for i, op := range p.Ops {
+	ops := p.Ops
+	if bulk := int(p.P("bulk", 0)); bulk > 0 {
+		pre := make([]harness.Op, 0, bulk+len(ops))
+		for k := 0; k < bulk; k++ {
+			pre = append(pre, harness.Op{Kind: "write", N: k % 7, A: 1, B: 1, C: int64((k + 1) % 2)})
+		}
+		ops = append(pre, ops...)
+	}
+	for i, op := range ops {
 		switch op.Kind {
 		case "write":
 			var txs []*common.VersionedTransaction
@@ -101,7 +116,24 @@ func c35Exec(p *harness.Plan) *harness.Outcome {
 			}
 			f.NextTopo += uint64(op.A - 1)
 			ts += uint64(time.Millisecond)
-			snap, err := f.Finalize(op.N, ts, txs, nil)
+			hs := make([]crypto.Hash, len(txs))
+			for k, t := range txs {
+				hs[k] = t.PayloadHash()
+			}
+			snap := f.Snapshot(op.N, ts, hs)
+			if op.C == 1 {
+				// somebody asks for it before this node has it
+				early, err := f.Store.ReadSnapshot(snap.PayloadHash())
+				c.out.Evals++
+				c.out.Probes["lookup_before_stored"]++
+				if err != nil || early != nil {
+					return c.viol("lookup-of-unstored-snapshot", "op %d: look-up of a snapshot that is not stored returned %v, %v", i, early != nil, err)
+				}
+			}
+			err := f.Store.WriteSnapshot(snap, []crypto.Hash{f.NodeIds[op.N]})
+			if err == nil {
+				f.NextTopo++
+			}
 			c.logf("write n%d pos=%d err=%v", op.N, snap.TopologicalOrder, err != nil)
 			if err != nil {
 				return c.viol("write-error", "op %d: WriteSnapshot failed: %v", i, err)
@@ -110,8 +142,18 @@ func c35Exec(p *harness.Plan) *harness.Outcome {
 			if snap.TopologicalOrder <= last.pos {
 				return c.tool(fmt.Errorf("rig bug: non-increasing position"))
 			}
-			model = append(model, c35Entry{snap.TopologicalOrder, snap.PayloadHash()})
+			model = append(model, c35Entry{snap.TopologicalOrder, snap.PayloadHash(), snap.Transactions})
 			writes++
+			if op.C == 1 {
+				late, err := f.Store.ReadSnapshot(snap.PayloadHash())
+				c.out.Evals++
+				if err != nil || late == nil {
+					return c.viol("lookup-missing", "op %d: snapshot %s stored at position %d is not found by hash (it was looked up once before it was stored): %v", i, snap.PayloadHash(), snap.TopologicalOrder, err)
+				}
+				if late.TopologicalOrder != snap.TopologicalOrder {
+					return c.viol("lookup-position", "op %d: look-up gives %d, assigned %d", i, late.TopologicalOrder, snap.TopologicalOrder)
+				}
+			}
 		case "list":
 			var offset uint64
 			if op.A < 0 {
@@ -158,6 +200,55 @@ func c35Exec(p *harness.Plan) *harness.Outcome {
 			if len(got) > 0 {
 				c.out.Probes["nonempty_list"]++
 			}
+		case "listtx":
+			var offset uint64
+			if op.A < 0 {
+				offset = model[len(model)-1].pos + 1 + uint64(i%3)
+			} else {
+				offset = uint64(op.A) * (model[len(model)-1].pos + 2) / 40
+			}
+			count := uint64(op.B)
+			if count > 12 && count <= 500 {
+				count = 101 + uint64(op.A*37+op.B)%400 // several hundred at once
+			}
+			got, gtx, err := f.Store.ReadSnapshotWithTransactionsSinceTopology(offset, count)
+			c.out.Evals++
+			lists++
+			if count > 500 {
+				if err == nil {
+					return c.viol("limit-not-enforced", "op %d: listing with transactions, count %d was served", i, count)
+				}
+				continue
+			}
+			if err != nil {
+				return c.viol("list-error", "op %d: %v", i, err)
+			}
+			var want []c35Entry
+			for _, e := range model {
+				if e.pos >= offset && uint64(len(want)) < count {
+					want = append(want, e)
+				}
+			}
+			c.logf("listtx off=%d count=%d -> %d", offset, count, len(got))
+			if len(got) != len(want) || len(gtx) != len(got) {
+				return c.viol("list-length", "op %d: listing with transactions from %d count %d returned %d entries (%d transaction lists), model %d", i, offset, count, len(got), len(gtx), len(want))
+			}
+			if len(got) > 100 {
+				c.out.Probes["listing_with_transactions_over_100"]++
+			}
+			for j, s := range got {
+				if s.TopologicalOrder != want[j].pos || s.PayloadHash() != want[j].hash {
+					return c.viol("list-order", "op %d: entry %d of the listing with transactions is position %d, model %d", i, j, s.TopologicalOrder, want[j].pos)
+				}
+				if len(gtx[j]) != len(want[j].txs) {
+					return c.viol("list-transactions", "op %d: entry %d lists %d transactions, snapshot has %d", i, j, len(gtx[j]), len(want[j].txs))
+				}
+				for k, t := range gtx[j] {
+					if t == nil || t.PayloadHash() != want[j].txs[k] {
+						return c.viol("list-transactions", "op %d: entry %d transaction %d differs", i, j, k)
+					}
+				}
+			}
 		case "lookup":
 			e := model[int(op.A)%len(model)]
 			s, err := f.Store.ReadSnapshot(e.hash)
@@ -195,7 +286,7 @@ func init() {
 	harness.Register(&harness.Property{
 		ID:    "C35",
 		Level: "exploration",
-		Rule: "seeded sequences of finalized snapshot writes (7 chains, 1-3 transactions, positions +1 or gaps), cursor listings (random offset/count incl. around the 500 limit), hash look-ups, last-snapshot reads and restarts, compared with an ordered-list model; " +
+		Rule: "seeded sequences of finalized snapshot writes (7 chains, 1-3 transactions, positions +1 or gaps), cursor listings with and without transaction bodies (random offset/count incl. around the 500 limit; 30% of the runs start with 90-320 stored snapshots and list hundreds at once), hash look-ups (also of a snapshot right before and right after it is stored), last-snapshot reads and restarts, compared with an ordered-list model; " +
 			"about one run in eight is a cluster run (7-9 real nodes, bursts, network faults, crash at step and Store-call boundaries) in which the kernel's own counter assigns the positions while several chain loops finalize: every assigned position must exceed all earlier ones of that node across restarts, and paged cursor sweeps of every node's index (random page sizes) must be ascending, complete, and agree with the look-up by hash and with the counter (evidence probes cluster_*); non-trivial = at least one write and one listing; distinct = canonical-log digests",
 		Components: mergeComponents(r3Components, clusterComponents),
 		Assume:     append(append([]string{}, r3Assume...), clusterAssume...),
